@@ -19,6 +19,7 @@ import PromqlVerif.Proofs.PermRef
 import PromqlVerif.Proofs.DistAgg
 import PromqlVerif.Properties.C04
 import PromqlVerif.Properties.C05
+import PromqlVerif.Properties.C06
 namespace PromqlVerif
 open Val
 
@@ -31,6 +32,8 @@ def UniqueKeys (c : Ctx V) (m : Matching) (e : Expr V) : Prop :=
 
 inductive FragP (c : Ctx V) : Expr V → Prop
   | base (e : Expr V) : Frag false e → FragP c e
+  | tsSel (s : VSel) (hat : s.atTs = none) (hts : c.q.timestampIsStepTime = false) :
+      FragP c (.call "timestamp" [.vsel s])
   | paren (a : Expr V) : FragP c a → FragP c (.paren a)
   | neg (a : Expr V) : FragP c a → FragP c (.neg a)
   | simple (fn : String) (a : Expr V) (h : simpleFns.contains fn = true) : FragP c a → FragP c (.call fn [a])
@@ -38,6 +41,8 @@ inductive FragP (c : Ctx V) : Expr V → Prop
       FragP c a → Frag true sc → FragP c (.bin op bl m a sc)
   | binSV (op : String) (bl : Bool) (m : Matching) (sc a : Expr V) (hop : engineBinOps.contains op = true) :
       Frag true sc → FragP c a → FragP c (.bin op bl m sc a)
+  | clampMin (a lo : Expr V) : FragP c a → Frag true lo → FragP c (.call "clamp_min" [a, lo])
+  | clampMax (a hi : Expr V) : FragP c a → Frag true hi → FragP c (.call "clamp_max" [a, hi])
   | agg (op : String) (w : Bool) (g : List String) (a : Expr V)
       (hacc : engineAccumulators.contains op = true)
       (hR : ∀ vals : List V, vals ≠ [] → engReduce op nan vals = aggReduce op nan vals)
@@ -61,11 +66,14 @@ def InvP (c : Ctx V) (e : Expr V) (o : OpSem V) : Prop :=
 theorem fragP_wt {P : Matching → Prop} (hP : ∀ m, P m) (c : Ctx V) (e : Expr V) (h : FragP c e) : WT P false e := by
   induction h with
   | base e he => exact C05.frag_wt false e he
+  | tsSel s _ _ => exact .timestamp _ (.vsel s)
   | paren a _ ih => exact .paren false a ih
   | neg a _ ih => exact .neg false a ih
   | simple fn a hfn _ ih => exact .simple fn a hfn ih
   | binVS op bl m a sc _ _ hs iha => exact .bin op bl m false true a sc (fun _ h => by cases h) iha (C05.frag_wt true sc hs)
   | binSV op bl m sc a _ hs _ iha => exact .bin op bl m true false sc a (fun h => by cases h) (C05.frag_wt true sc hs) iha
+  | clampMin a lo _ hlo ih => exact .clampMin a lo ih (C05.frag_wt true lo hlo)
+  | clampMax a hi _ hhi ih => exact .clampMax a hi ih (C05.frag_wt true hi hhi)
   | agg op w g a _ _ _ _ ih => exact .agg op w g a ih
   | aggP op w g p a _ _ _ _ hp _ ih => exact .aggP op w g p a (C05.frag_wt true p hp) ih
   | join op bl m l r _ _ _ _ _ _ _ ihl ihr => exact .bin op bl m false false l r (fun _ _ => hP m) ihl ihr
@@ -156,11 +164,66 @@ theorem fragP_inv (c : Ctx V) (hq : c.q.noDupCheck = true) (e : Expr V) (h : Fra
     obtain ⟨xs, hxs, _, hval⟩ := hstep t
     simp only [Bool.false_eq_true, if_false] at hval
     exact ⟨xs, _, hxs, hval, List.Perm.refl _⟩
+  | tsSel s hat hts =>
+    obtain ⟨o, ho, _⟩ := C06.timestamp_of_selector c hq hts s hat 0
+    refine ⟨o, ho, fun t => ?_⟩
+    obtain ⟨o', ho', hden⟩ := C06.timestamp_of_selector c hq hts s hat t
+    have : o' = o := by rw [ho] at ho'; exact (Except.ok.inj ho').symm
+    subst this
+    unfold OpSem.den at hden
+    cases hs : o'.step t with
+    | error er =>
+      rw [hs] at hden
+      simp only [Except.map] at hden
+      -- the reference value is not an error
+      exfalso
+      rw [eval] at hden <;> first | (intro s r hh; cases hh) | skip
+      simp [Expr.unwrap, hts, hat, dedupCheck, hq] at hden
+    | ok xs =>
+      rw [hs] at hden
+      simp only [Except.map] at hden
+      exact ⟨xs, _, rfl, hden.symm, List.Perm.refl _⟩
   | paren a _ ih =>
     obtain ⟨o, ho, hinv⟩ := ih
     refine ⟨o, (by rw [engOp]; exact ho), fun t => ?_⟩
     obtain ⟨xs, out, h1, h2, h3⟩ := hinv t
     exact ⟨xs, out, h1, (by rw [eval]; exact h2), h3⟩
+  | clampMin a lo hfa hflo ih =>
+    obtain ⟨o, ho, hinv⟩ := ih
+    obtain ⟨ol, hol, hinvl⟩ := frag_inv c hq true lo hflo
+    refine ⟨{ series := o.series.map Labels.dropName
+              step := fun t => do
+                let xs ← o.step t
+                let lo ← scalarOf ol t
+                pure (xs.map fun x => (x.1, maxGo lo x.2)) }, ?_, fun t => ?_⟩
+    · rw [engOp]; simp only [ho, hol, bind, Except.bind, pure, Except.pure]
+    · obtain ⟨xs, out, hxs, hval, hperm⟩ := hinv t
+      obtain ⟨sl, hsl, hel⟩ := scalarOf_of_inv c lo ol hinvl t
+      refine ⟨xs.map fun x => (x.1, maxGo sl x.2), out.map fun x => (x.1.dropName, maxGo sl x.2),
+        by simp [hxs, hsl, bind, Except.bind, pure, Except.pure], ?_, ?_⟩
+      · rw [eval]
+        simp only [hval, hel, bind, Except.bind, pure, Except.pure, Value.asVec, Value.asScal, dedupCheck, hq, Bool.not_true, Bool.false_and]
+        rfl
+      · rw [denote_map o.series Labels.dropName (maxGo sl) xs]
+        exact hperm.map _
+  | clampMax a hi hfa hfhi ih =>
+    obtain ⟨o, ho, hinv⟩ := ih
+    obtain ⟨oh, hoh, hinvh⟩ := frag_inv c hq true hi hfhi
+    refine ⟨{ series := o.series.map Labels.dropName
+              step := fun t => do
+                let xs ← o.step t
+                let hi ← scalarOf oh t
+                pure (xs.map fun x => (x.1, minGo hi x.2)) }, ?_, fun t => ?_⟩
+    · rw [engOp]; simp only [ho, hoh, bind, Except.bind, pure, Except.pure]
+    · obtain ⟨xs, out, hxs, hval, hperm⟩ := hinv t
+      obtain ⟨sh, hsh, heh⟩ := scalarOf_of_inv c hi oh hinvh t
+      refine ⟨xs.map fun x => (x.1, minGo sh x.2), out.map fun x => (x.1.dropName, minGo sh x.2),
+        by simp [hxs, hsh, bind, Except.bind, pure, Except.pure], ?_, ?_⟩
+      · rw [eval]
+        simp only [hval, heh, bind, Except.bind, pure, Except.pure, Value.asVec, Value.asScal, dedupCheck, hq, Bool.not_true, Bool.false_and]
+        rfl
+      · rw [denote_map o.series Labels.dropName (minGo sh) xs]
+        exact hperm.map _
   | agg op w g a hacc hR hP hfa ih =>
     obtain ⟨child, hchild, hinv⟩ := ih
     have hk : (op == "topk" || op == "bottomk") = false := by
